@@ -86,22 +86,26 @@ Check C16_ignore :
   /\ s_stats st' = s_stats st /\ s_dialect st' = s_dialect st.
 Print Assumptions C16_ignore.
 
-(* an ignored context never comes back, whatever is called in between, until clear_ignored_lints.  The context of a later lint is computed with the lint dictionary of that moment: a dictionary change may change it (finding C16-N1, not excluded by this theorem) *)
+(* an ignored lint stays away, full strength (C16-N1 repaired by 483b7cf): GIVEN that the context hash of a lint is the same under every user dictionary (ctx_ignores_dict — LintContext::from_lint blanks the word metadata, C16_context_shape; monitored on the real code), after ignore_lint, whatever is called in between (import_words, set_lint_config, imports, other ignores ...) until clear_ignored_lints: no later answer on any text contains a lint with the ignored context, and no later answer on the same text and language contains the ignored lint *)
 Theorem C16_ignore_persistent :
   forall (curated : config) (word_id : text -> N) (raw_lints : text -> language -> config -> dict -> nat -> list rlint) (ctx : rlint -> text -> language -> dict -> N) st t l cs t2 lang2 ls,
+  ctx_ignores_dict ctx ->
   Forall (fun c => c <> CClearIgnored) cs ->
   let st1 := fst (step curated word_id raw_lints ctx st (CIgnore t l)) in
   let st2 := fst (run curated word_id raw_lints ctx st1 cs) in
   api_lint curated raw_lints ctx st2 t2 lang2 = Ok ls ->
-  Forall (fun w => ctx (winner w) t2 lang2 (s_lint_dict st2) <> ctx (winner l) t (wlang l) (s_lint_dict st)) ls.
-Proof. exact ignore_persistent. Qed.
+  Forall (fun w => (forall d d', ctx (winner w) t2 lang2 d <> ctx (winner l) t (wlang l) d')
+                   /\ (t2 = t -> lang2 = wlang l -> winner w <> winner l)) ls.
+Proof. exact ignore_persistent_full. Qed.
 Check C16_ignore_persistent :
   forall (curated : config) (word_id : text -> N) (raw_lints : text -> language -> config -> dict -> nat -> list rlint) (ctx : rlint -> text -> language -> dict -> N) st t l cs t2 lang2 ls,
+  ctx_ignores_dict ctx ->
   Forall (fun c => c <> CClearIgnored) cs ->
   let st1 := fst (step curated word_id raw_lints ctx st (CIgnore t l)) in
   let st2 := fst (run curated word_id raw_lints ctx st1 cs) in
   api_lint curated raw_lints ctx st2 t2 lang2 = Ok ls ->
-  Forall (fun w => ctx (winner w) t2 lang2 (s_lint_dict st2) <> ctx (winner l) t (wlang l) (s_lint_dict st)) ls.
+  Forall (fun w => (forall d d', ctx (winner w) t2 lang2 d <> ctx (winner l) t (wlang l) d')
+                   /\ (t2 = t -> lang2 = wlang l -> winner w <> winner l)) ls.
 Print Assumptions C16_ignore_persistent.
 
 (* export_ignored_lints gives JSON that import_ignored_lints reads back as the same list; imported into any linter it adds exactly those contexts and changes nothing else; export, clear, import on one linter restores the behaviour of lint on every text *)
@@ -132,85 +136,55 @@ Check C16_ignore_roundtrip :
     (forall t lang, api_lint curated raw_lints ctx st2 t lang = api_lint curated raw_lints ctx st t lang).
 Print Assumptions C16_ignore_roundtrip.
 
-(* custom words, partial: a new linter that imports the exported words in any order ends up with the same user dictionary and is synchronised on it ... *)
-Theorem C16_words_roundtrip_partial :
+(* the lint dictionary IS the user dictionary in every state reachable from a synchronised one, in particular in every history from Linter::new (import_words re-synchronises whenever the user dictionary changed, fix ba0a239; C16-F15 repaired) *)
+Theorem C16_synced :
+  forall (curated : config) (word_id : text -> N) (raw_lints : text -> language -> config -> dict -> nat -> list rlint) (ctx : rlint -> text -> language -> dict -> N) cs st,
+  s_lint_dict st = s_user st ->
+  s_lint_dict (fst (run curated word_id raw_lints ctx st cs)) = s_user (fst (run curated word_id raw_lints ctx st cs)).
+Proof. exact run_synced. Qed.
+Check C16_synced :
+  forall (curated : config) (word_id : text -> N) (raw_lints : text -> language -> config -> dict -> nat -> list rlint) (ctx : rlint -> text -> language -> dict -> N) cs st,
+  s_lint_dict st = s_user st ->
+  s_lint_dict (fst (run curated word_id raw_lints ctx st cs)) = s_user (fst (run curated word_id raw_lints ctx st cs)).
+Print Assumptions C16_synced.
+
+(* custom words, state level: a new linter that imports the exported words in any order ends up with the same user dictionary, synchronised on it, and exports the same words *)
+Theorem C16_words_reimport :
   forall (curated : config) (word_id : text -> N) st dia ws,
   dict_wf word_id (s_user st) -> Permutation ws (export_words st) ->
   let st2 := import_words curated word_id (new curated dia) ws in
   s_user st2 = s_user st /\ s_lint_dict st2 = s_user st /\ s_cfg st2 = cfg_clear curated /\ s_ignored st2 = []
   /\ export_words st2 = export_words st.
 Proof. exact words_roundtrip. Qed.
-Check C16_words_roundtrip_partial :
+Check C16_words_reimport :
   forall (curated : config) (word_id : text -> N) st dia ws,
   dict_wf word_id (s_user st) -> Permutation ws (export_words st) ->
   let st2 := import_words curated word_id (new curated dia) ws in
   s_user st2 = s_user st /\ s_lint_dict st2 = s_user st /\ s_cfg st2 = cfg_clear curated /\ s_ignored st2 = []
   /\ export_words st2 = export_words st.
-Print Assumptions C16_words_roundtrip_partial.
+Print Assumptions C16_words_reimport.
 
-(* ... hence it lints every text like the first one PROVIDED the first linter was itself synchronised with what it exports (s_lint_dict = s_user); what is missing for the full statement is exactly that proviso, see C16_words_desync / C16_words_roundtrip_refuted *)
-Theorem C16_words_roundtrip_behaviour_partial :
-  forall (curated : config) (word_id : text -> N) (raw_lints : text -> language -> config -> dict -> nat -> list rlint) (ctx : rlint -> text -> language -> dict -> N) st st' ws,
-  dict_wf word_id (s_user st) -> Permutation ws (export_words st) ->
-  s_lint_dict st = s_user st ->
-  s_user st' = [] -> s_lint_dict st' = [] -> s_dialect st' = s_dialect st ->
-  (forall h, hmem h (s_ignored st') = hmem h (s_ignored st)) ->
-  let st2 := import_words curated word_id st' ws in
-  s_cfg st2 = s_cfg st ->
-  forall t lang, api_lint curated raw_lints ctx st2 t lang = api_lint curated raw_lints ctx st t lang.
-Proof. exact words_roundtrip_behaviour. Qed.
-Check C16_words_roundtrip_behaviour_partial :
-  forall (curated : config) (word_id : text -> N) (raw_lints : text -> language -> config -> dict -> nat -> list rlint) (ctx : rlint -> text -> language -> dict -> N) st st' ws,
-  dict_wf word_id (s_user st) -> Permutation ws (export_words st) ->
-  s_lint_dict st = s_user st ->
-  s_user st' = [] -> s_lint_dict st' = [] -> s_dialect st' = s_dialect st ->
-  (forall h, hmem h (s_ignored st') = hmem h (s_ignored st)) ->
-  let st2 := import_words curated word_id st' ws in
-  s_cfg st2 = s_cfg st ->
-  forall t lang, api_lint curated raw_lints ctx st2 t lang = api_lint curated raw_lints ctx st t lang.
-Print Assumptions C16_words_roundtrip_behaviour_partial.
-
-(* F15, wasm half: import_words re-synchronises only when the word count grows.  Importing a second spelling w2 of a known word w1 (same WordId) changes what is exported but not the dictionary the linter lints with; the linter rebuilt from the export lints with the other spelling *)
-Theorem C16_words_desync :
-  forall (curated : config) (word_id : text -> N) (raw_lints : text -> language -> config -> dict -> nat -> list rlint) (ctx : rlint -> text -> language -> dict -> N) dia w1 w2,
-  w1 <> w2 -> word_id w1 = word_id w2 ->
-  let st := fst (run curated word_id raw_lints ctx (new curated dia) [CImportWords [w1]; CImportWords [w2]]) in
-  let st2 := import_words curated word_id (new curated dia) (export_words st) in
-  export_words st = [w2] /\ s_user st = [(word_id w1, w2)]
-  /\ s_lint_dict st = [(word_id w1, w1)] /\ s_lint_dict st2 = [(word_id w1, w2)]
-  /\ s_lint_dict st <> s_lint_dict st2
-  /\ s_cfg st = s_cfg st2 /\ s_ignored st = s_ignored st2 /\ s_dialect st = s_dialect st2
-  /\ (forall t lang,
-        api_lint curated raw_lints ctx st t lang = attach t lang (ro_full (raw_lints t lang (cfg_fill_with_curated curated (cfg_clear curated)) [(word_id w1, w1)] dia))
-        /\ api_lint curated raw_lints ctx st2 t lang = attach t lang (ro_full (raw_lints t lang (cfg_fill_with_curated curated (cfg_clear curated)) [(word_id w1, w2)] dia))).
-Proof. exact words_desync. Qed.
-Check C16_words_desync :
-  forall (curated : config) (word_id : text -> N) (raw_lints : text -> language -> config -> dict -> nat -> list rlint) (ctx : rlint -> text -> language -> dict -> N) dia w1 w2,
-  w1 <> w2 -> word_id w1 = word_id w2 ->
-  let st := fst (run curated word_id raw_lints ctx (new curated dia) [CImportWords [w1]; CImportWords [w2]]) in
-  let st2 := import_words curated word_id (new curated dia) (export_words st) in
-  export_words st = [w2] /\ s_user st = [(word_id w1, w2)]
-  /\ s_lint_dict st = [(word_id w1, w1)] /\ s_lint_dict st2 = [(word_id w1, w2)]
-  /\ s_lint_dict st <> s_lint_dict st2
-  /\ s_cfg st = s_cfg st2 /\ s_ignored st = s_ignored st2 /\ s_dialect st = s_dialect st2
-  /\ (forall t lang,
-        api_lint curated raw_lints ctx st t lang = attach t lang (ro_full (raw_lints t lang (cfg_fill_with_curated curated (cfg_clear curated)) [(word_id w1, w1)] dia))
-        /\ api_lint curated raw_lints ctx st2 t lang = attach t lang (ro_full (raw_lints t lang (cfg_fill_with_curated curated (cfg_clear curated)) [(word_id w1, w2)] dia))).
-Print Assumptions C16_words_desync.
-
-(* so 'export then import of the custom words restores the same behaviour' is false of the model: concrete witness (toy rules: WordId = word length, one rule reporting a text that is not a dictionary word); the same history on the real API is known finding C16-F15 *)
-Theorem C16_words_roundtrip_refuted :
-  exists (curated : config) (word_id : text -> N) raw_lints ctx (cs : list call) (t : text) (lang : language),
-    let st := fst (run curated word_id raw_lints ctx (new curated 0) cs) in
-    let st2 := import_words curated word_id (new curated 0) (export_words st) in
-    api_lint curated raw_lints ctx st t lang <> api_lint curated raw_lints ctx st2 t lang.
-Proof. exact words_roundtrip_refuted. Qed.
-Check C16_words_roundtrip_refuted :
-  exists (curated : config) (word_id : text -> N) raw_lints ctx (cs : list call) (t : text) (lang : language),
-    let st := fst (run curated word_id raw_lints ctx (new curated 0) cs) in
-    let st2 := import_words curated word_id (new curated 0) (export_words st) in
-    api_lint curated raw_lints ctx st t lang <> api_lint curated raw_lints ctx st2 t lang.
-Print Assumptions C16_words_roundtrip_refuted.
+(* 'exporting then importing the custom words restores the same behaviour', full strength: for EVERY history of calls on a linter made by Linter::new, a second new linter that receives the first one's configuration (get/set_lint_config), ignore list (export/import) and exported words in any order exports the same words and answers lint on every text in both languages exactly as the first (the configurations may differ in null entries of names that are no rules; fill_with_curated copies only explicit choices, so the rules see the same configuration) *)
+Theorem C16_words_roundtrip :
+  forall (curated : config) (word_id : text -> N) (raw_lints : text -> language -> config -> dict -> nat -> list rlint) (ctx : rlint -> text -> language -> dict -> N) dia cs ws,
+  amap_sorted curated ->
+  let st := fst (run curated word_id raw_lints ctx (new curated dia) cs) in
+  Permutation ws (export_words st) ->
+  let st2 := fst (run curated word_id raw_lints ctx (new curated dia)
+                    [CSetConfig (Some (s_cfg st)); CImportIgnored (print_ignored (s_ignored st)); CImportWords ws]) in
+  export_words st2 = export_words st /\ s_user st2 = s_user st /\ s_lint_dict st2 = s_lint_dict st
+  /\ forall t lang, api_lint curated raw_lints ctx st2 t lang = api_lint curated raw_lints ctx st t lang.
+Proof. exact words_roundtrip_full. Qed.
+Check C16_words_roundtrip :
+  forall (curated : config) (word_id : text -> N) (raw_lints : text -> language -> config -> dict -> nat -> list rlint) (ctx : rlint -> text -> language -> dict -> N) dia cs ws,
+  amap_sorted curated ->
+  let st := fst (run curated word_id raw_lints ctx (new curated dia) cs) in
+  Permutation ws (export_words st) ->
+  let st2 := fst (run curated word_id raw_lints ctx (new curated dia)
+                    [CSetConfig (Some (s_cfg st)); CImportIgnored (print_ignored (s_ignored st)); CImportWords ws]) in
+  export_words st2 = export_words st /\ s_user st2 = s_user st /\ s_lint_dict st2 = s_lint_dict st
+  /\ forall t lang, api_lint curated raw_lints ctx st2 t lang = api_lint curated raw_lints ctx st t lang.
+Print Assumptions C16_words_roundtrip.
 
 (* JSON: from_json (to_json x) = Some x for Span *)
 Theorem C16_json_roundtrip_span :
@@ -252,11 +226,14 @@ Check C16_json_no_raw_control :
   forall c, Forall (fun x => (32 <= x)%N) (esc_char c).
 Print Assumptions C16_json_no_raw_control.
 
-(* tie to the source text (table regenerated from harper-wasm/src/lib.rs on every run): Linter::lint still does overlay, LintGroup::lint, restore, remove_overlaps, remove_ignored, problem text, in this order; import_words still synchronises only when the word count grew; synchronize_lint_dict, apply_suggestion (record first), import_ignored_lints (append), ignore_lint (lint's own language, the linter's dictionary) have the modelled shape *)
+(* tie to the source text (table regenerated from harper-wasm/src/lib.rs on every run): Linter::lint still does overlay, LintGroup::lint, restore, remove_overlaps, remove_ignored, problem text, in this order; import_words snapshots the user dictionary, extends it and synchronises exactly when `self.user_dictionary != before`; set_lint_config_from_json/_from_object parse, clear, merge; synchronize_lint_dict, apply_suggestion (record first), import_ignored_lints (append), ignore_lint (lint's own language, the linter's dictionary) have the modelled shape *)
 Theorem C16_source_shape :
   wasm_lint_pipeline = model_lint_pipeline
-  /\ wasm_import_words_init_len = "self.user_dictionary.word_count()"%string
+  /\ wasm_import_words_before = "self.user_dictionary.clone()"%string
   /\ wasm_import_words_sync_condition = model_sync_condition
+  /\ wasm_import_words_steps = model_import_words_steps
+  /\ wasm_set_config_json_steps = model_set_config_steps
+  /\ wasm_set_config_object_steps = model_set_config_steps
   /\ wasm_synchronize_steps = model_synchronize_steps
   /\ wasm_apply_suggestion_steps = ["push_record"; "apply_to_lint_span"]%string
   /\ wasm_import_ignored_steps = ["append"]%string
@@ -264,13 +241,30 @@ Theorem C16_source_shape :
 Proof. exact wasm_source_shape. Qed.
 Check C16_source_shape :
   wasm_lint_pipeline = model_lint_pipeline
-  /\ wasm_import_words_init_len = "self.user_dictionary.word_count()"%string
+  /\ wasm_import_words_before = "self.user_dictionary.clone()"%string
   /\ wasm_import_words_sync_condition = model_sync_condition
+  /\ wasm_import_words_steps = model_import_words_steps
+  /\ wasm_set_config_json_steps = model_set_config_steps
+  /\ wasm_set_config_object_steps = model_set_config_steps
   /\ wasm_synchronize_steps = model_synchronize_steps
   /\ wasm_apply_suggestion_steps = ["push_record"; "apply_to_lint_span"]%string
   /\ wasm_import_ignored_steps = ["append"]%string
   /\ wasm_ignore_lint_steps = ["parser_of_lint_language"; "linter_dictionary"; "ignore_inner_on_document"]%string.
 Print Assumptions C16_source_shape.
+
+(* ... the source facts the premise ctx_ignores_dict rests on: LintContext::from_lint takes the tokens of [start-2,start), the problem span and [end,end+2) and blanks the quote twin index and the word metadata; Document::parse uses the dictionary for the word metadata only; harper-wasm's two parsers take no dictionary *)
+Theorem C16_context_shape :
+  lint_context_steps = ["problem_tokens"; "prequel_two_before_start"; "sequel_two_after_end"; "to_fat";
+                        "blank_quote_twin_loc"; "blank_word_metadata"]%string
+  /\ document_parse_dictionary_uses = ["dictionary.get_word_metadata(word_source)"]%string
+  /\ wasm_parser_constructors = ["PlainEnglish"; "Markdown::default()"]%string.
+Proof. exact wasm_context_shape. Qed.
+Check C16_context_shape :
+  lint_context_steps = ["problem_tokens"; "prequel_two_before_start"; "sequel_two_after_end"; "to_fat";
+                        "blank_quote_twin_loc"; "blank_word_metadata"]%string
+  /\ document_parse_dictionary_uses = ["dictionary.get_word_metadata(word_source)"]%string
+  /\ wasm_parser_constructors = ["PlainEnglish"; "Markdown::default()"]%string.
+Print Assumptions C16_context_shape.
 
 (* ... and the types serde derives the JSON from still have the variants / fields the printers write, with no #[serde(..)] attribute *)
 Theorem C16_serde_shape :
@@ -304,16 +298,46 @@ Check C16_config_overlay :
   forall (curated c : config) k, amap_sorted c -> aget k (cfg_fill_with_curated curated c) = match aget k c with Some (Some v) => Some (Some v) | _ => aget k curated end.
 Print Assumptions C16_config_overlay.
 
-(* synchronize_lint_dict (run by import_words) rebuilds the LintGroup and re-merges the saved configuration: in every history that starts with Linter::new the configuration after import_words is the configuration before *)
+(* set_lint_config_from_json REPLACES the explicit choices (clear, then merge; fix b67a243): afterwards a rule is explicitly on/off exactly when the new configuration says so, every key the linter listed stays listed (null when the new configuration does not choose it), nothing else of the state changes *)
+Theorem C16_set_config_replaces :
+  forall (curated : config) (word_id : text -> N) (raw_lints : text -> language -> config -> dict -> nat -> list rlint) (ctx : rlint -> text -> language -> dict -> N) st c k, amap_sorted c ->
+  let st' := fst (step curated word_id raw_lints ctx st (CSetConfig (Some c))) in
+  explicit k (s_cfg st') = explicit k c
+  /\ aget k (s_cfg st') = match aget k c with
+                          | Some (Some v) => Some (Some v)
+                          | _ => match aget k (s_cfg st) with Some _ => Some None | None => None end
+                          end
+  /\ s_user st' = s_user st /\ s_lint_dict st' = s_lint_dict st /\ s_ignored st' = s_ignored st
+  /\ s_stats st' = s_stats st /\ s_dialect st' = s_dialect st.
+Proof. exact set_config_replaces. Qed.
+Check C16_set_config_replaces :
+  forall (curated : config) (word_id : text -> N) (raw_lints : text -> language -> config -> dict -> nat -> list rlint) (ctx : rlint -> text -> language -> dict -> N) st c k, amap_sorted c ->
+  let st' := fst (step curated word_id raw_lints ctx st (CSetConfig (Some c))) in
+  explicit k (s_cfg st') = explicit k c
+  /\ aget k (s_cfg st') = match aget k c with
+                          | Some (Some v) => Some (Some v)
+                          | _ => match aget k (s_cfg st) with Some _ => Some None | None => None end
+                          end
+  /\ s_user st' = s_user st /\ s_lint_dict st' = s_lint_dict st /\ s_ignored st' = s_ignored st
+  /\ s_stats st' = s_stats st /\ s_dialect st' = s_dialect st.
+Print Assumptions C16_set_config_replaces.
+
+(* synchronize_lint_dict (run by import_words) rebuilds the LintGroup and re-merges the saved configuration: in every history that starts with Linter::new every explicit choice and every entry of a curated rule is the same after import_words; the only possible change is that a null entry of a name that is no curated rule (left behind by set_lint_config's clear) disappears *)
 Theorem C16_import_words_keeps_config :
-  forall (curated : config) (word_id : text -> N) (raw_lints : text -> language -> config -> dict -> nat -> list rlint) (ctx : rlint -> text -> language -> dict -> N) dia cs ws, amap_sorted curated ->
+  forall (curated : config) (word_id : text -> N) (raw_lints : text -> language -> config -> dict -> nat -> list rlint) (ctx : rlint -> text -> language -> dict -> N) dia cs ws k, amap_sorted curated ->
   let st := fst (run curated word_id raw_lints ctx (new curated dia) cs) in
-  s_cfg (import_words curated word_id st ws) = s_cfg st.
+  let a := aget k (s_cfg (import_words curated word_id st ws)) in
+  let b := aget k (s_cfg st) in
+  explicit k (s_cfg (import_words curated word_id st ws)) = explicit k (s_cfg st)
+  /\ (a = b \/ (b = Some None /\ aget k curated = None /\ a = None)).
 Proof. exact import_words_keeps_config. Qed.
 Check C16_import_words_keeps_config :
-  forall (curated : config) (word_id : text -> N) (raw_lints : text -> language -> config -> dict -> nat -> list rlint) (ctx : rlint -> text -> language -> dict -> N) dia cs ws, amap_sorted curated ->
+  forall (curated : config) (word_id : text -> N) (raw_lints : text -> language -> config -> dict -> nat -> list rlint) (ctx : rlint -> text -> language -> dict -> N) dia cs ws k, amap_sorted curated ->
   let st := fst (run curated word_id raw_lints ctx (new curated dia) cs) in
-  s_cfg (import_words curated word_id st ws) = s_cfg st.
+  let a := aget k (s_cfg (import_words curated word_id st ws)) in
+  let b := aget k (s_cfg st) in
+  explicit k (s_cfg (import_words curated word_id st ws)) = explicit k (s_cfg st)
+  /\ (a = b \/ (b = Some None /\ aget k curated = None /\ a = None)).
 Print Assumptions C16_import_words_keeps_config.
 
 (* ---------- non-vacuity: the hypotheses are satisfiable on non-trivial inputs ---------- *)
@@ -360,3 +384,47 @@ Example C16_json_nonvacuous :
   print_wlint l = lit "{""inner"":{""span"":{""start"":3,""end"":5},""lint_kind"":""WordChoice"",""suggestions"":[{""ReplaceWith"":[""\"""",""\\""]},""Remove"",{""InsertAfter"":[]}],""message"":""\""\\\n\u0001\u001f"%string ++ [127; 233; 128512]%N ++ lit """,""priority"":255},""problem_text"":""\t"",""language"":""Markdown""}"%string
   /\ lint_from_json (print_wlint l) = Some l.
 Proof. split; vm_compute; reflexivity. Qed.
+
+(* the premise about harper-core is satisfiable by a context that reads the lint but not the dictionary; the
+   rule of the examples below is gated by the explicit choice for key 1 (and reports unless the text is a
+   user word): a null entry and an absent entry are alike to it *)
+Definition ex_raw_cfg (t : text) (lg : language) (c : config) (d : dict) (n : nat) : list rlint :=
+  match explicit 1%N c with
+  | Some true => toy_raw t lg c d n
+  | _ => []
+  end.
+Example C16_premises_nonvacuous :
+  ctx_ignores_dict toy_ctx
+  /\ ex_raw_cfg [97]%N Plain [(1%N, Some true)] [] 0 <> ex_raw_cfg [97]%N Plain [(1%N, None)] [] 0
+  /\ ex_raw_cfg [97]%N Plain [(1%N, None)] [] 0 = ex_raw_cfg [97]%N Plain [] [] 0.
+Proof.
+  split; [|split].
+  - intros l t lg d d'. reflexivity.
+  - vm_compute. discriminate.
+  - reflexivity.
+Qed.
+
+(* the full words round trip on a concrete history: two spellings of one WordId, a configuration change with
+   an unknown rule that is later un-chosen, an ignored lint; the second linter gets config + ignore list +
+   words and answers alike (here checked on the two spellings) *)
+Example C16_words_roundtrip_nonvacuous :
+  let cur : config := [(1%N, Some true); (2%N, Some false)] in
+  let cs := [CImportWords [[97; 98]%N]; CSetConfig (Some [(3%N, Some true)]); CImportWords [[65; 66]%N];
+             CSetConfig (Some [(2%N, Some true)]); CIgnore [120]%N (mkwl (mkrl (mkspan 0 1) Spelling [] [] 63) [120]%N Plain)] in
+  let st := fst (run cur toy_word_id ex_raw_cfg toy_ctx (new cur 0) cs) in
+  let st2 := fst (run cur toy_word_id ex_raw_cfg toy_ctx (new cur 0)
+                    [CSetConfig (Some (s_cfg st)); CImportIgnored (print_ignored (s_ignored st)); CImportWords (export_words st)]) in
+  export_words st = [[65; 66]%N] /\ s_lint_dict st = s_user st /\ s_cfg st <> s_cfg st2
+  /\ api_lint cur ex_raw_cfg toy_ctx st [97; 98]%N Plain = api_lint cur ex_raw_cfg toy_ctx st2 [97; 98]%N Plain
+  /\ api_lint cur ex_raw_cfg toy_ctx st [65; 66]%N Plain = api_lint cur ex_raw_cfg toy_ctx st2 [65; 66]%N Plain.
+Proof. vm_compute. repeat split; try reflexivity. discriminate. Qed.
+
+(* HISTORY — the OLD import_words (synchronise only when the word count grew; before fix ba0a239, finding
+   C16-F15) refuted the words round trip: regression witness over Wasm.import_words_old, which is no longer
+   part of `step` *)
+Example C16_words_roundtrip_old_refuted :
+  let st1 := import_words_old [] toy_word_id (new [] 0) [[97; 98]%N] in
+  let st := import_words_old [] toy_word_id st1 [[65; 66]%N] in
+  let st2 := import_words_old [] toy_word_id (new [] 0) (export_words st) in
+  api_lint [] toy_raw toy_ctx st [97; 98]%N Plain <> api_lint [] toy_raw toy_ctx st2 [97; 98]%N Plain.
+Proof. exact words_roundtrip_old_refuted. Qed.
